@@ -185,10 +185,9 @@ func (s *server) onAccept(conn Conn) {
 	// store & register connection
 	nconn := new(connection)
 	nconn.init(conn, s.opts)
-	if !nconn.IsActive() {
-		atomic.AddInt32(&s.accepting, -1)
-		return
-	}
+	// A connection that is already closing (closed while it was prepared, or by its peer right after it was
+	// registered) is tracked like any other until its close callbacks have run: Close must not return nil
+	// while its descriptor is still open.
 	fd := conn.Fd()
 	vp(vpSrvStore, unsafe.Pointer(s), int64(fd), 0)
 	nconn.AddCloseCallback(func(connection Connection) error {
@@ -203,6 +202,9 @@ func (s *server) onAccept(conn Conn) {
 	// ever. A connection that is only marked closed runs the callback later and stays tracked until then.
 	if atomic.LoadInt32(&nconn.closeCallbackRun) == 1 {
 		s.connections.Delete(fd)
+	}
+	if !nconn.IsActive() {
+		return
 	}
 
 	// trigger onConnect asynchronously
